@@ -2,29 +2,38 @@ import DuneVerif.Proofs.C20Store
 /-! views: which cells a (strided) view denotes, and what writing through a view does -/
 namespace DV.C20
 
-/-- a view denotes existing cells: its block exists, it really strides, every entry lies inside the block -/
+/-- a view denotes existing cells: its block exists, it really strides, its records have a size (so every byte address
+    `ptr + j*stride` is the start of a cell), every entry lies inside the block -/
 def ViewOK (s : State) (v : View) : Prop :=
-  v.blk < s.blocks.length ∧ v.step ≠ 0 ∧
+  v.blk < s.blocks.length ∧ v.step ≠ 0 ∧ 0 < v.lay.rsz ∧
   ∀ j, j < v.len → 0 ≤ v.off + (j : Int) * v.step ∧ v.off + (j : Int) * v.step < ((s.read v.blk).length : Int)
 
 theorem ViewOK.pos_lt {s : State} {v : View} (h : ViewOK s v) (j : Nat) (hj : j < v.len) :
     v.pos j < (s.read v.blk).length := by
-  have := h.2.2 j hj
-  unfold View.pos
+  have := h.2.2.2 j hj
+  rw [View.pos_eq v h.2.2.1]
   omega
 
 theorem ViewOK.pos_inj {s : State} {v : View} (h : ViewOK s v) (j j' : Nat) (hj : j < v.len) (hj' : j' < v.len)
     (he : v.pos j = v.pos j') : j = j' := by
-  have h1 := h.2.2 j hj
-  have h2 := h.2.2 j' hj'
-  unfold View.pos at he
+  have h1 := h.2.2.2 j hj
+  have h2 := h.2.2.2 j' hj'
+  rw [View.pos_eq v h.2.2.1, View.pos_eq v h.2.2.1] at he
   have he' : v.off + (j : Int) * v.step = v.off + (j' : Int) * v.step := by omega
   have he'' : (j : Int) * v.step = (j' : Int) * v.step := by omega
   have := Int.eq_of_mul_eq_mul_right h.2.1 he''
   omega
 
+/-- the byte address of every entry of such a view is the start of an existing cell of its object -/
+theorem ViewOK.byte_addr {s : State} {v : View} (h : ViewOK s v) (j : Nat) (hj : j < v.len) :
+    ∃ c : Nat, v.lay.cellAt (entryAddr v.info j) = some (c : Int) ∧ c < (s.read v.blk).length ∧ v.pos j = c := by
+  have hb := h.2.2.2 j hj
+  refine ⟨(v.off + (j : Int) * v.step).toNat, ?_, by omega, View.pos_eq v h.2.2.1 j⟩
+  unfold View.info
+  rw [cellAt_entryAddr v.lay h.2.2.1, Int.toNat_of_nonneg hb.1]
+
 theorem fullView_ok (s : State) (b : Nat) (hb : b < s.blocks.length) : ViewOK s (fullView b (s.read b).length) := by
-  refine ⟨hb, by simp [fullView], ?_⟩
+  refine ⟨hb, by simp [fullView], by simp [fullView], ?_⟩
   intro j hj
   simp only [fullView] at hj ⊢
   omega
